@@ -53,6 +53,8 @@ type Engine struct {
 	overflowChecks bool
 	timeoutS       int
 	loadTime       float64
+	localsBase     map[string][]localEntry // claims/locals.json (locals.go)
+	renamesUsed    map[string]map[string]string
 }
 
 func loadEngine(repo string) (*Engine, error) {
@@ -370,6 +372,15 @@ func (e *Engine) newCtx(t *Target) *FnCtx {
 		c.decl = t.decl
 	} else if t.lit != nil {
 		c.decl = t.lit
+	}
+	if base, ok := e.localsBase[t.Key]; ok {
+		if m := renameMap(base, localsOf(t)); len(m) > 0 {
+			c.renames = m
+			if e.renamesUsed == nil {
+				e.renamesUsed = map[string]map[string]string{}
+			}
+			e.renamesUsed[t.Key] = m
+		}
 	}
 	return c
 }
